@@ -161,7 +161,7 @@ def run_neutral(spec, rec, dadi):
                         continue
                     v = fs[1:n]
                     e5 = float(np.max(np.abs(v / theory - 1))) if np.all(np.isfinite(v)) else float("inf")
-                    rec.check("stiff-history-finer-rung", e5 <= 0.015 and e5 <= errs[(1e-4, log)] / 3 + 3e-3, site=site, tags=dict(tags, log=log),
+                    rec.check("stiff-history-finer-rung", e5 <= 0.015 and (errs[(1e-4, log)] <= 0.015 or e5 <= errs[(1e-4, log)] / 3 + 3e-3), site=site, tags=dict(tags, log=log),
                               observed={"err_at_1e-4": errs[(1e-4, log)], "err_at_1e-5": e5})
             for log in (False, True):
                 if (1e-3, log) in errs and (1e-4, log) in errs:
